@@ -15,7 +15,7 @@ pub enum Ev {
     Absorb { len: usize, dig: u64 },
     SqBytes { n: usize, dig: u64 },
     SqBits { n: usize },
-    SqFe { sizes: Vec<u16>, dig: u64 },
+    SqFe { sizes: Vec<u16>, dig: u64, vals: Vec<Vec<u8>> },
 }
 
 impl Ev {
@@ -53,6 +53,18 @@ impl<S: CryptographicSponge> RecSponge<S> {
     pub fn n_squeezes(&self) -> usize {
         self.log.iter().filter(|e| e.is_squeeze()).count()
     }
+    /// All field elements squeezed so far, in order, decoded as `F`.
+    pub fn squeezed_fes<F: PrimeField>(&self) -> Vec<F> {
+        let mut out = Vec::new();
+        for e in &self.log {
+            if let Ev::SqFe { vals, .. } = e {
+                for b in vals {
+                    out.push(ark_serialize::CanonicalDeserialize::deserialize_compressed(&b[..]).expect("squeezed element decodes"));
+                }
+            }
+        }
+        out
+    }
     pub fn n_absorbs(&self) -> usize {
         self.log.len() - self.n_squeezes()
     }
@@ -89,8 +101,12 @@ impl<S: CryptographicSponge> CryptographicSponge for RecSponge<S> {
     ) -> Vec<F> {
         let out: Vec<F> = self.inner.squeeze_field_elements_with_sizes(sizes);
         let mut bytes = Vec::new();
+        let mut vals = Vec::new();
         for f in &out {
-            ark_serialize::CanonicalSerialize::serialize_compressed(f, &mut bytes).unwrap();
+            let mut b = Vec::new();
+            ark_serialize::CanonicalSerialize::serialize_compressed(f, &mut b).unwrap();
+            bytes.extend_from_slice(&b);
+            vals.push(b);
         }
         let sz = sizes
             .iter()
@@ -99,17 +115,21 @@ impl<S: CryptographicSponge> CryptographicSponge for RecSponge<S> {
                 FieldElementSize::Truncated(n) => *n as u16,
             })
             .collect();
-        self.log.push(Ev::SqFe { sizes: sz, dig: dig64(&bytes) });
+        self.log.push(Ev::SqFe { sizes: sz, dig: dig64(&bytes), vals });
         out
     }
 
     fn squeeze_field_elements<F: PrimeField>(&mut self, num_elements: usize) -> Vec<F> {
         let out: Vec<F> = self.inner.squeeze_field_elements(num_elements);
         let mut bytes = Vec::new();
+        let mut vals = Vec::new();
         for f in &out {
-            ark_serialize::CanonicalSerialize::serialize_compressed(f, &mut bytes).unwrap();
+            let mut b = Vec::new();
+            ark_serialize::CanonicalSerialize::serialize_compressed(f, &mut b).unwrap();
+            bytes.extend_from_slice(&b);
+            vals.push(b);
         }
-        self.log.push(Ev::SqFe { sizes: vec![0u16; num_elements], dig: dig64(&bytes) });
+        self.log.push(Ev::SqFe { sizes: vec![0u16; num_elements], dig: dig64(&bytes), vals });
         out
     }
 }
